@@ -235,6 +235,10 @@ func newNode() *topicNode {
 
 func (node *topicNode) addClients(ans map[string]byte) {
 	for client, qos := range node.clients {
-		ans[client] = qos
+		// a client may be reached through several matching filters (overlapping
+		// subscriptions), it gets the maximum QoS of them [MQTT-3.3.5-1].
+		if prev, ok := ans[client]; !ok || qos > prev {
+			ans[client] = qos
+		}
 	}
 }
